@@ -85,6 +85,16 @@ func Main(prop string) {
 		}
 		for i := 0; i < o.N; i++ {
 			cr := r.Fork()
+			// C02: one case in twenty moves the bytes fields of the live object between empty / null / bytes, one in
+			// twenty changes a field again while the re-runs of several subscriptions on it are going on
+			if prop == "C02" && i%20 == 11 {
+				cases = append(cases, GenBytesCase(cr))
+				continue
+			}
+			if prop == "C02" && i%20 == 17 {
+				cases = append(cases, GenBurstCase(cr))
+				continue
+			}
 			// one case in nine (one in six for C02) is about memoised sub-results; the others are what they were
 			if (prop == "C02" && i%6 == 4) || (prop != "C02" && i%9 == 4) {
 				cases = append(cases, GenCacheCase(cr, prop))
